@@ -1,4 +1,5 @@
 import Cfdm.Lemmas.Indexing
+import Cfdm.Lemmas.LastSat
 /-
 C03 — indexing, assignment and subspacing.  Property theorems only.
 -/
@@ -90,6 +91,74 @@ theorem C03_setitem_axis (n : Nat) (l : List Int) (h : l.all (inRange n) = true)
     lastWrite (algoWrites n l) pos = lastWrite (specWrites n l) pos := by
   have := algoW_specW n l h l.length 0 (by simp) pos
   simpa [algoW, specW, algoWrites, specWrites] using this
+
+/-- `lastSat` is `find?` on the reversed list, so `lastWrite` is a `lastSat`. -/
+theorem lastSat_eq_reverse_find {α : Type} (p : α → Bool) (l : List α) :
+    lastSat p l = l.reverse.find? p := by
+  induction l with
+  | nil => rfl
+  | cons x xs ih =>
+    simp only [lastSat, List.reverse_cons, List.find?_append, ih]
+    cases h : List.find? p xs.reverse <;> simp [List.find?]
+    split <;> simp_all
+
+theorem lastSat_of_lastWrite (A B : List W) (pos : Int)
+    (h : lastWrite A pos = lastWrite B pos) : lastSat (qpos pos) A = lastSat (qpos pos) B := by
+  unfold lastWrite at h
+  have hA := lastSat_eq_reverse_find (qpos pos) A
+  have hB := lastSat_eq_reverse_find (qpos pos) B
+  have hq : (fun w : Int × Nat => w.1 == pos) = qpos pos := rfl
+  rw [hq, ← hA, ← hB] at h
+  cases ha : lastSat (qpos pos) A with
+  | none =>
+    cases hb : lastSat (qpos pos) B with
+    | none => rfl
+    | some w => rw [ha, hb] at h; simp at h
+  | some w =>
+    cases hb : lastSat (qpos pos) B with
+    | none => rw [ha, hb] at h; simp at h
+    | some v =>
+      rw [ha, hb] at h
+      simp only [Option.map_some, Option.some.injEq] at h
+      have hw := lastSat_sat _ _ _ ha
+      have hv := lastSat_sat _ _ _ hb
+      simp only [qpos, beq_iff_eq] at hw hv
+      congr 1
+      exact Prod.ext (hw.trans hv.symm) h
+
+/-- **N-d assignment, full strength.**  `ax` lists, per axis, the target position, the
+groups of writes `_set_subspace` performs on that axis (one group per piece) and the
+specification's writes (`value[k] → position l[k]`, in order).  If on every axis the
+piecewise writes and the sequential writes leave the same final content (which
+`C03_setitem_axis` proves for every in-range list, and which is trivial for slice
+axes), then the element that finally lands on **any** target `t` under the code's
+order of writes — Cartesian product of pieces, then row-major inside each piece — is
+the one that numpy's sequential orthogonal assignment puts there (last write wins),
+for any number of axes and any lists. -/
+theorem C03_setitem_nd (ax : List (Int × List (List W) × List W))
+    (h : ∀ a ∈ ax, ∀ pos, lastWrite a.2.1.flatten pos = lastWrite a.2.2 pos) :
+    lastSat (matchAll (ax.map (fun a => qpos a.1))) (algoND (ax.map (·.2.1))) =
+    lastSat (matchAll (ax.map (fun a => qpos a.1))) (product (ax.map (·.2.2))) := by
+  have h1 := lastSat_algoND (ax.map (fun a => (a.1, a.2.1)))
+  have h2 := lastSat_product (ax.map (fun a => (qpos a.1, a.2.2)))
+  simp only [List.map_map, Function.comp_def] at h1 h2
+  rw [h1, h2]
+  congr 1
+  apply List.map_congr_left
+  intro a ha
+  exact lastSat_of_lastWrite _ _ _ (h a ha a.1)
+
+/-- The per-axis hypothesis of `C03_setitem_nd` holds for the groups the model builds
+from any in-range list index. -/
+theorem C03_listGroups_ok (n : Nat) (l : List Int) (h : l.all (inRange n) = true) (pos : Int) :
+    lastWrite (listGroups n l).flatten pos = lastWrite (specWrites n l) pos := by
+  have := C03_setitem_axis n l h pos
+  simpa [listGroups, algoWrites, List.flatten_eq_flatMap, List.flatMap_map] using this
+
+/-- Non-vacuity: two list axes, one with a pair descending to 0 and a repeated pair. -/
+example : (lastSat (matchAll [qpos 0, qpos 2])
+    (algoND [listGroups 3 [1, 0, 0], listGroups 4 [2, 2, -2]])).map (·.map Prod.snd) = some [2, 2] := by
+  decide
 
 /-- The unfixed code is wrong: on an axis of size 5 the pair `(1, 0)` selects nothing. -/
 theorem C03_old_code_counterexample :
